@@ -54,6 +54,7 @@ TEMPLATES = [
  '{lv} = {e}', 'LET {lv} = {e}', '{lv} = {lv}', 'r = r2', 'ra(1) = r', 'arr = arr', 'SWAP {lv}, {lv}',
  'CALL p0', 'CALL p0({e})', 'CALL p1', 'CALL p1({e})', 'CALL p1({e}, {e})', 'CALL p2({e}, {e})', 'CALL pa({e})', 'CALL pa(arr())', 'CALL pa(sarr$())', 'CALL pa(m2())', 'CALL pa(ra())', 'CALL pr({e})', 'CALL pr(r)', 'CALL pr(ra(1))', 'p1 {e}', 'p2 {e}, {e}', 'p0 {e}', 'CALL nosuch', 'CALL nosuch({e})', 'CALL f1%(1)', 'CALL lbl', 'CALL i%',
  'LOCATE {e}', 'LOCATE {e}, {e}', 'LOCATE , {e}', 'LOCATE {e}, {e}, {e}', 'LOCATE {e}, {e}, {e}, {e}, {e}', 'LOCATE , , {e}', 'LOCATE', 'LOCATE ,', 'LOCATE {e}, {e}, {e}, {e}, {e}, {e}', 'COLOR {e}', 'COLOR {e}, {e}', 'COLOR , {e}', 'COLOR {e}, {e}, {e}', 'COLOR', 'COLOR ,',
+ 'BLOAD {e}', 'BLOAD {e}, {e}', 'BLOAD', 'BSAVE {e}, {e}, {e}', 'BSAVE {e}', 'KILL {e}', 'KILL', 'PRINT LBOUND((arr))', 'PRINT UBOUND((arr), 1)', 'PRINT UBOUND((r))', 'PRINT LBOUND(arr())',
  'SOUND {e}, {e}', 'SOUND {e}', 'BEEP {e}', 'CLS {e}', 'CLS', 'SCREEN {e}', 'SCREEN {e}, {e}', 'SCREEN', 'WIDTH {e}, {e}', 'WIDTH {e}', 'WIDTH', 'VIEW PRINT {e} TO {e}', 'VIEW PRINT', 'VIEW PRINT {e}', 'PLAY {e}', 'POKE {e}, {e}', 'POKE {e}', 'DEF SEG = {e}', 'DEF SEG', 'RANDOMIZE {e}', 'RANDOMIZE',
  'DIM n1({e})', 'DIM n2({e} TO {e})', 'DIM n3({e}, {e}) AS STRING', 'DIM n4 AS {e}', 'DIM n5 AS nosuchtype', 'DIM n6(1) AS rt', 'DIM arr(5)', 'DIM i%', 'DIM i% AS LONG', 'DIM n7%(1) AS LONG', 'DIM SHARED n8', 'DIM n9, n9', 'DIM', 'DIM n10(1 TO)', 'DIM n11(-1)', 'DIM n12(5 TO 1)', 'DIM n13(i%)', 'DIM n14(i% TO 3)', 'DIM n15(1, 2, 3, 4, 5, 6, 7, 8, 9)', 'REDIM n16(3)', 'ERASE arr', 'DIM big1(70000)', 'DIM SHARED big2(70000)', 'DIM big3(300, 300) AS DOUBLE', 'DIM big4(70000) AS rt', 'DIM big5(2147483647)',
  'CONST c1 = {e}', 'CONST c9 = "s" + 1', 'CONST c10 = -"s"', 'CONST c11 = NOT "s"', 'CONST c12 = ((1D308 * 10) - (1D308 * 10)) MOD 2', 'CONST c13 = 1E38 * 1E38', 'CONST c14$ = 1', 'CONST c15% = "s"',
@@ -61,7 +62,7 @@ TEMPLATES = [
  'READ {lv}', 'READ {lv}, {lv}', 'READ', 'RESTORE {l}', 'RESTORE', 'DATA {e}', 'DATA', 'DATA ,,,', 'DATA "a', 'INPUT {lv}', 'INPUT {e}; {lv}', 'INPUT {e}, {lv}, {lv}', 'INPUT ; {e}; {lv}', 'INPUT', 'INPUT , {lv}', 'INPUT ; ; {lv}', 'INPUT ; , {lv}', 'INPUT {e} {lv}', 'INPUT {e};', 'INPUT ;', 'LINE INPUT {lv}', 'LINE INPUT {e}; {lv}', 'LINE INPUT',
  'GOTO {l}', 'GOSUB {l}', 'RETURN', 'RETURN {l}', 'ON ERROR GOTO {l}', 'ON ERROR RESUME NEXT', 'ON ERROR', 'ON ERROR GOTO', 'RESUME', 'RESUME NEXT', 'RESUME {l}', 'ERROR {e}', 'ON {e} GOTO lbl, lbl', 'ON {e} GOSUB lbl',
  'lbl:', 'lbl: PRINT 1', '10 PRINT 1\n10 PRINT 2', 'nodata: PRINT 1', '5 5 PRINT', 'END', 'STOP', 'SYSTEM', 'END {e}', 'DEFINT {e}', 'DEFINT A', 'DEFINT A-', 'DEFINT Z-A', 'DEFSTR A-Z\nx = 1', 'DEFINT A-Z\nx = "s"', 'OPTION BASE 1', 'DECLARE SUB p0 ()', 'DECLARE FUNCTION f1% (a%)', 'DECLARE SUB nosuch2 ()',
- 'TYPE t2\nEND TYPE', 'TYPE t3\n x AS INTEGER\n x AS LONG\nEND TYPE', 'TYPE t4\n x AS nosuch\nEND TYPE', 'TYPE t5\n x AS t5\nEND TYPE', 'TYPE rt\n a AS INTEGER\nEND TYPE', 'TYPE t6\n PRINT 1\nEND TYPE', 'TYPE t7\n x(3) AS INTEGER\nEND TYPE', 'TYPE t8\n x AS STRING * 5\nEND TYPE', 'TYPE\nEND TYPE',
+ 'TYPE t2\nEND TYPE', 'TYPE t3\n x AS INTEGER\n x AS LONG\nEND TYPE', 'TYPE t4\n x AS nosuch\nEND TYPE', 'TYPE t5\n x AS t5\nEND TYPE', 'TYPE t9\n x AS t9\nEND TYPE\nDIM v9 AS t9', 'TYPE t10\n y AS INTEGER\n x AS t10\nEND TYPE\nDIM v10(2) AS t10\nv10(1).y = 1', 'TYPE t11\n x AS t12\nEND TYPE\nTYPE t12\n x AS t11\nEND TYPE\nDIM v11 AS t11', 'TYPE rt\n a AS INTEGER\nEND TYPE', 'TYPE t6\n PRINT 1\nEND TYPE', 'TYPE t7\n x(3) AS INTEGER\nEND TYPE', 'TYPE t8\n x AS STRING * 5\nEND TYPE', 'TYPE\nEND TYPE',
  'SUB p0\nEND SUB', 'SUB q1\nSUB q2\nEND SUB\nEND SUB', 'SUB q3 (a%, a%)\nEND SUB', 'SUB q4 (a AS nosuch)\nEND SUB', 'SUB q5\nlbl: PRINT 1\nEND SUB', 'SUB q6 STATIC\nx = 1\nEND SUB', 'SUB q7\nSHARED i%\nEND SUB', 'SUB q8\nSTATIC\nEND SUB', 'SUB q9\nDIM SHARED z\nEND SUB',
  'FUNCTION q10\nq10 = "s"\nEND FUNCTION', 'FUNCTION q11$\nq11$ = 1\nEND FUNCTION', 'FUNCTION q12% (a%)\nEND FUNCTION\nPRINT q12%', 'FUNCTION q13\nEXIT SUB\nEND FUNCTION', 'FUNCTION q14\nq14 = q14(1)\nEND FUNCTION', 'FUNCTION i%\nEND FUNCTION', 'FUNCTION q15%\nFOR q15% = 1 TO 2\nNEXT\nEND FUNCTION', 'FUNCTION q16%\nINPUT q16%\nEND FUNCTION', 'FUNCTION q17%\nREAD q17%\nEND FUNCTION', 'FOR f1% = 1 TO 2\nNEXT', 'FOR p0 = 1 TO 2\nNEXT', 'SUB f1%\nEND SUB',
  "REM {e}", "' {e}", 'PRINT 1 \' c', 'PRINT 1: : PRINT 2', ':', ': :', '::PRINT 1', 'PRINT 1 :', 'LET', 'LET = 1', '= 1', '1 = 1', '{e}', '{e} {e}', '{lv}', '{lv}({e}) = {e}', '{lv}.a = {e}', '{lv}.a.b = {e}',
